@@ -18,8 +18,14 @@ TStress == /\ Ev("crash.stress") /\ UNCHANGED <<done, seen>>
            /\ Flag(E.exit = "ok", "sacrificial process terminated abnormally (panic / fatal error) or wedged")
 \* the run covered every message type in both phases
 TCoverage == /\ Ev("crash.coverage") /\ UNCHANGED <<done, seen>>
-             /\ Flag(\A m \in MsgTypes : \E c \in Classes, p \in Phases : <<m, c, p>> \in seen, "a message type of the alphabet was never sent")
-TNext == TReset \/ TCase \/ TStress \/ TCoverage
+             /\ Flag(\A m \in MsgTypes : \E c \in Classes, p \in ServerPhases : <<m, c, p>> \in seen, "a message type of the alphabet was never sent")
+\* the client-side run covered every message type on the control channel and every other place a server may speak
+TCoverageClient == /\ Ev("crash.coverage.client") /\ UNCHANGED <<done, seen>>
+                   /\ Flag(/\ \A m \in MsgTypes : \E c \in Classes : <<m, c, "to-client-control">> \in seen
+                           /\ \A p \in ClientPhases : \E m \in MsgTypes, c \in Classes : <<m, c, p>> \in seen,
+                           "a message type / a place where a server may speak was never exercised against the client")
+TNote == Ev("drv.note") /\ UNCHANGED <<done, seen>> /\ bad' = bad \cup {<<"scenario could not run", l>>}
+TNext == TReset \/ TCase \/ TStress \/ TCoverage \/ TCoverageClient \/ TNote
 TSpec == TInit /\ [][TNext]_<<l, bad, done, seen>>
 NoMismatch == bad = {}
 HWM == TLCSet(1, IF TLCGet(1) < l THEN l ELSE TLCGet(1))
